@@ -56,6 +56,8 @@ MappingOf(b) == (b[1] \div 32) + 8 * b[2]           \* 3 + 8 bits
 LavaPossibleOf(b) == (b[4] \div 16) % 2
 SetCellTypeB(b, c) == [b EXCEPT ![1] = (b[1] \div 32) * 32 + c]
 SetLavaPossibleB(b, v) == [b EXCEPT ![4] = b[4] - 16 * ((b[4] \div 16) % 2) + 16 * v]
+\* the mapping table of the addressing probes: entry k names tileset (7k+3) mod 2^16 and image (13k+1) mod 2^16
+ProbeMapping(k) == << (k * 7 + 3) % 65536, (k * 13 + 1) % 65536 >>
 \* ---- public edits ------------------------------------------------------------------------------
 SetCellType(m, c, x, y) == [m EXCEPT !.tiles[TileIndex(x, y, m.h) + 1] = SetCellTypeB(@, c)]
 SetLavaPossible(m, v, x, y) == [m EXCEPT !.tiles[TileIndex(x, y, m.h) + 1] = SetLavaPossibleB(@, v)]
